@@ -222,7 +222,9 @@ func (e *Executor) RunTask(ctx context.Context, call *Call) error {
 			}
 		}
 
-		if err := e.mkdir(t); err != nil {
+		if e.Dry {
+			// a dry run creates nothing, not even the task directory
+		} else if err := e.mkdir(t); err != nil {
 			e.Logger.Errf(logger.Red, "task: cannot make directory %q: %v\n", t.Dir, err)
 		}
 
